@@ -70,6 +70,25 @@ let () =
       run id Z0 (args_of hexargs)
     | id :: "O" :: t :: hexkey :: _ ->
       Printf.printf "%s\t%s\n" id (observe t.[0] (bytes_of_hex hexkey))
+    | id :: "X" :: ts :: keys :: _ ->
+      (* one pass of the local_deletion expiry sweep: the keys whose expiry is over are removed with the clear
+         function of their type (the sweep's own batch), in both models *)
+      let t = z_of_int (int_of_string ts) in
+      let items = if keys = "" then [] else split_on ',' keys in
+      List.iter (fun it ->
+        match split_on ':' it with
+        | [ty; hk] ->
+          let key = bytes_of_hex hk in
+          let name = (match ty with "H" -> "hclear" | "S" -> "sclear" | "Z" -> "zclear" | "L" -> "lclear" | _ -> "del") in
+          let args = [List.map (fun ch -> n_of_int (Char.code ch)) (List.init (String.length name) (String.get name)); key] in
+          (match parse_cmd args with
+           | Some c ->
+             let (ms', _) = map_step !compact !now t c !ms in
+             let (ss', _) = spec_step !compact !now t c !ss in
+             ms := ms'; ss := ss'
+           | None -> ())
+        | _ -> ()) items;
+      Printf.printf "%s\tswept=:%d\n" id (List.length items)
     | id :: "E" :: _ ->
       (* engine keys per class: physical content of the Map state (no counterpart in the reference model) *)
       let names = ["kv"; "hsize"; "hash"; "ssize"; "set"; "zsize"; "zset"; "zscore"; "lmeta"; "list"] in
